@@ -241,7 +241,7 @@ def c09(r):
                       'a static type/rank error may be reported at compile time or at run time']
     r.mc('BlocTupleType', 'MC_C09.cfg', 'tuple type identity: with structural identity a table accepts exactly the tuples of its declaration (all pairs of declarations of <= 4 items '
          'over 6 item types); MC_C09_dev.cfg (identity = the implementation\'s 16-bit hash) has a counterexample = known finding D21')
-    h = 2
+    h = 2 if r.quick else 3
     scs = r.gen('Gen_C09', 'Gen_C09.cfg', env={'GEN_DEPTH': str(h)}, timeout=3000)
     r.exhaustive = True
     r.extra['bounds'] = '8 container kinds x (at/put/insert/delete/concat/count/set@/@) x 7-11 argument kinds x 14 positions, all single operations; all pairs of a reduced pool; forall lock programs'
